@@ -140,6 +140,15 @@ struct stdfn { void *fn; void *env; };
 /* opaque heap object: non-null pointer into nothing (dereferencing it fails the pointer checks) */
 void *nondet_ptr(void);
 static inline void *shim_opaque_ptr(void) { void *p = nondet_ptr(); __CPROVER_assume(p != 0); return p; }
+/* ---- std::vector<T>(first, last) from two iterators of one container: [first, last) must be a valid range (same storage,
+   first not behind last, every element readable) - undefined behaviour otherwise - and the new storage is as large as the range ---- */
+static inline unsigned long shim_range_len(const void *first, const void *last, unsigned long esz) {
+  SHIM_ASSERT(__CPROVER_same_object(first, last), "shim.range.same_storage");
+  SHIM_ASSERT(__CPROVER_POINTER_OFFSET(first) <= __CPROVER_POINTER_OFFSET(last), "shim.range.first_not_behind_last");
+  unsigned long bytes = (unsigned long)(__CPROVER_POINTER_OFFSET(last) - __CPROVER_POINTER_OFFSET(first));
+  SHIM_ASSERT(bytes == 0 || __CPROVER_r_ok(first, bytes), "shim.range.readable");
+  SHIM_ASSERT(bytes / esz <= g_alloc_bound, "shim.alloc.bounded_by_input");
+  return bytes / esz; }
 /* ---- std::chrono::system_clock::now(): nanoseconds, nondeterministic but monotone (ghost g_last_now) ---- */
 extern long g_last_now;
 #ifdef SHIM_CLOCK_FRESH
